@@ -531,9 +531,36 @@ def _cli(ctx: Ctx, st: dict) -> Any:
     return ctx.clients[st.get("client", "0")]
 
 
-def _user_on_stop(ctx: Ctx, tag: str) -> Callable:
+def _user_on_stop(ctx: Ctx, tag: str, client_key: str = "0") -> Callable:
     async def on_stop(expected: bool) -> None:
-        ctx.world.rec("user_on_stop", tag=tag, expected=bool(expected))
+        w = ctx.world
+        w.rec("user_on_stop", tag=tag, expected=bool(expected))
+        plan = ctx.scn.get("on_stop_do")
+        if not plan:
+            return
+        # the application reconnects from inside its stop callback (the session has ended: C19 says it must be accepted)
+        n = ctx.extra["onstop_n"] = ctx.extra.get("onstop_n", 0) + 1
+        if n > plan.get("max", 1):
+            return
+        for _ in range(plan.get("yields", 0)):
+            fut = w.loop.create_future()
+            w.loop.call_soon(HarnessCallback(lambda fut=fut: (not fut.done()) and fut.set_result(None)))
+            await fut
+        do = plan.get("do", "start")
+        w.rec("op_start", actor="onstop", i=n, do=do, args={"yields": plan.get("yields", 0)})
+        try:
+            cli = ctx.clients[client_key]
+            if do == "start":
+                await cli.start_connection(on_stop=_user_on_stop(ctx, tag, client_key))
+            else:
+                await cli.connect(on_stop=_user_on_stop(ctx, tag, client_key), login=plan.get("login", False))
+        except asyncio.CancelledError as exc:
+            w.rec("op_end", actor="onstop", i=n, do=do, ok=False, cancelled=True, requested=False, err=exc_info(exc))
+            raise
+        except Exception as exc:
+            w.rec("op_end", actor="onstop", i=n, do=do, ok=False, err=exc_info(exc))
+        else:
+            w.rec("op_end", actor="onstop", i=n, do=do, ok=True, value=None)
 
     return on_stop
 
@@ -756,6 +783,19 @@ def _add_raw_cb(ctx: Ctx, conn: Any, sid: str, types: list, behaviors: list) -> 
                 _add_raw_cb(ctx, conn, b["new"]["sid"], b["new"]["types"], b["new"].get("behaviors", []))
             elif b["do"] == "raise":
                 raise ValueError("subscriber failure " + sid)
+            elif b["do"] == "force_disconnect":
+                # the application closes the session from inside a message callback (public API, force path has no await)
+                cli = ctx.client
+                w.rec("cb_force_disconnect", sid=sid)
+                _rec_disc(ctx, cli, True)
+                coro = cli.disconnect(force=True)
+                try:
+                    coro.send(None)
+                except StopIteration:
+                    pass
+                else:
+                    coro.close()
+                    raise HarnessError("disconnect(force=True) suspended")
 
     w.rec("sub_add", sid=sid, types=list(types))
     remove = conn.add_message_callback(cb, tuple(getattr(pb, t) for t in types))
@@ -766,7 +806,12 @@ def _remove_raw_cb(ctx: Ctx, sid: str) -> None:
     rm = ctx.subs.pop(sid, None)
     if rm is not None:
         ctx.world.rec("sub_remove", sid=sid)
+        ctx.extra.setdefault("removed_cbs", {})[sid] = rm
         rm()
+    elif sid in ctx.extra.get("removed_cbs", {}):
+        # the unsubscribe callable is idempotent by contract: calling it again must change nothing
+        ctx.world.rec("sub_remove_again", sid=sid)
+        ctx.extra["removed_cbs"][sid]()
 
 
 @step("add_cb")
